@@ -354,7 +354,7 @@ class Machine:
             self._return()
 
     def _return(self) -> None:
-        self._call_stack.unwind_loops()
+        self._drop_pending(self._call_stack.unwind_loops())
         self._reg.pc = self._call_stack.get_return()
         self._call_stack.exit_routine()
 
@@ -377,10 +377,17 @@ class Machine:
                 self._reg.pc += 1
 
     def _loop(self) -> None:
-        self._call_stack.enter_loop()
+        self._call_stack.enter_loop(self._vm_math.eval_depth())
 
     def _end_loop(self) -> None:
-        self._call_stack.exit_loop()
+        self._drop_pending(self._call_stack.exit_loop())
+
+    def _drop_pending(self, eval_depth) -> None:
+        # A loop over lights keeps the names it has yet to visit on the
+        # evaluation stack. When the loop is left early (break, return), they
+        # have to go, or an enclosing loop or expression picks them up.
+        if eval_depth is not None:
+            self._vm_math.trim_eval(eval_depth)
 
     @inject(LightSet)
     def _matrix(self, light_set) -> None:
